@@ -2,7 +2,7 @@ SPECIFICATION Spec
 CONSTANTS
   ItemKinds = {"local", "call", "pcall", "assign", "do", "if", "func", "table"}
   MaxTop = 3
-  MaxDev = 3
+  MaxDev = 2
   DevTypes = {"semi", "dir", "cmt"}
   WithReturn = FALSE
 INVARIANT Emit
